@@ -433,6 +433,26 @@ def _nested_interp_toeplitz(g, dt, batch, n):
     return O.InterpolatedLinearOperator(O.ToeplitzLinearOperator(c), li, lv, li.clone(), lv.clone()), Wl @ toeplitz_dense(c) @ Wl.mT
 
 
+def _interp_root(g, dt, batch, n):
+    m = n + 1
+    R = rn(g, *batch, m, max(1, n - 1), dtype=dt)
+    li = torch.randint(0, m, (*batch, n, 2), generator=g)
+    ri = torch.randint(0, m, (*batch, n + 1, 2), generator=g)
+    lv, rv = rn(g, *batch, n, 2, dtype=dt), rn(g, *batch, n + 1, 2, dtype=dt)
+    Wl, Wr = interp_matrix(li, lv, m), interp_matrix(ri, rv, m)
+    return O.InterpolatedLinearOperator(O.RootLinearOperator(R), li, lv, ri, rv), Wl @ (R @ R.mT) @ Wr.mT
+
+
+def _interp_root_sq(g, dt, batch, n):
+    m = n + 1
+    R = rn(g, *batch, m, max(1, n - 1), dtype=dt)
+    li = torch.randint(0, m, (*batch, n, 2), generator=g)
+    ri = torch.randint(0, m, (*batch, n, 2), generator=g)
+    lv, rv = rn(g, *batch, n, 2, dtype=dt), rn(g, *batch, n, 2, dtype=dt)
+    Wl, Wr = interp_matrix(li, lv, m), interp_matrix(ri, rv, m)
+    return O.InterpolatedLinearOperator(O.RootLinearOperator(R), li, lv, ri, rv), Wl @ (R @ R.mT) @ Wr.mT
+
+
 CASES: List[Case] = [
     Case("dense_rect", "DenseLinearOperator", _dense, square=False),
     Case("dense_psd", "DenseLinearOperator", _dense_psd, psd=True),
@@ -486,6 +506,8 @@ CASES: List[Case] = [
     Case("nest_root_kron", "nested", _nested_root_kron),
     Case("nest_sumbatch_kron", "nested", _nested_sumbatch_kron, psd=True),
     Case("nest_interp_toeplitz", "nested", _nested_interp_toeplitz),
+    Case("nest_interp_root", "nested", _interp_root, square=False),
+    Case("nest_interp_root_sq", "nested", _interp_root_sq),
 ]
 BY_NAME = {c.name: c for c in CASES}
 
